@@ -70,6 +70,10 @@ pub struct AOp {
     /// candidate raw value for `Acc::Lang`
     #[serde(default)]
     pub cand: Option<B>,
+    /// delivery channel of the candidate for `Acc::Lang`: 0 `--probe=cand`, 1 `--probe cand`,
+    /// 2 an environment variable set when the argument is defined, 3 `--probe=cand` on a clone of the command
+    #[serde(default)]
+    pub via: u8,
 }
 
 #[derive(Clone, Debug, Hash, Serialize, Deserialize, PartialEq)]
@@ -328,6 +332,7 @@ impl Engine for AccessSim {
                 },
                 ask: if rng.chance(2, 5) { Some(*rng.pick(&[Ty::Str, Ty::Os, Ty::Path, Ty::I64, Ty::U16, Ty::U8, Ty::Bool, Ty::I32, Ty::U64])) } else { None },
                 cand: None,
+                via: 0,
             })
             .collect();
         let mut ops: Vec<AOp> = ops;
@@ -340,7 +345,8 @@ impl Engine for AccessSim {
             let a = &spec.args[k as usize % spec.args.len()];
             let cand = lang_candidate(rng, a);
             let at = rng.usize(ops.len() + 1);
-            ops.insert(at, AOp { on_clone: false, acc: Acc::Lang, id: IdSel::Arg(k), ask: None, cand: Some(cand) });
+            let via = rng.weighted(&[4, 2, 3, 3]) as u8;
+            ops.insert(at, AOp { on_clone: false, acc: Acc::Lang, id: IdSel::Arg(k), ask: None, cand: Some(cand), via });
         }
         C04Sc { spec, argv, depth: rng.below(3) as u8, ops }
     }
@@ -436,7 +442,7 @@ fn lang_candidate(rng: &mut Rng, a: &ArgSpec) -> B {
 
 /// One candidate against one argument's value parser in isolation (a fresh single-argument command):
 /// accepted iff the independent reading admits it, and then the typed value equals that reading.
-fn lang_probe(a: &ArgSpec, cand: &B) -> Option<String> {
+fn lang_probe(a: &ArgSpec, cand: &B, via: u8) -> Option<String> {
     if !a.action.takes_values() {
         return None;
     }
@@ -444,11 +450,34 @@ fn lang_probe(a: &ArgSpec, cand: &B) -> Option<String> {
     iso.long = Some("probe".into());
     iso.parser = a.parser.clone();
     iso.ignore_case = a.ignore_case;
+    // a separate token that starts with `-` is not a value, and an environment value cannot hold NUL
+    let via = match via {
+        1 if cand.0.first() == Some(&b'-') => 0,
+        2 if cand.0.contains(&0) => 0,
+        v => v,
+    };
+    const PROBE_ENV: &str = "CLAPSIM_C04_PROBE";
+    if via == 2 {
+        iso.env = Some(PROBE_ENV.into());
+        std::env::set_var(PROBE_ENV, cand.os());
+    }
     let spec = CmdSpec { name: "prog".into(), args: vec![iso.clone()], ..Default::default() };
     let mut cmd = build_cmd(&spec);
-    let mut tok = b"--probe=".to_vec();
-    tok.extend_from_slice(&cand.0);
-    let argv = vec![OsString::from("prog"), B(tok).os()];
+    if via == 2 {
+        std::env::remove_var(PROBE_ENV);
+    }
+    if via == 3 {
+        cmd = cmd.clone();
+    }
+    let argv = match via {
+        1 => vec![OsString::from("prog"), OsString::from("--probe"), cand.os()],
+        2 => vec![OsString::from("prog")],
+        _ => {
+            let mut tok = b"--probe=".to_vec();
+            tok.extend_from_slice(&cand.0);
+            vec![OsString::from("prog"), B(tok).os()]
+        }
+    };
     let r = match catch(|| cmd.try_get_matches_from_mut(argv)) {
         Ok(r) => r,
         Err(p) => return Some(format!("parsing candidate {} for {:?} panicked: {} at {}", cand.esc(), a.parser, p.msg, p.loc)),
@@ -464,7 +493,15 @@ fn lang_probe(a: &ArgSpec, cand: &B) -> Option<String> {
         (Ok(_), None) => Some(format!("candidate {} is accepted by {:?} (ignore_case={}) but is outside the specified language", cand.esc(), a.parser, a.ignore_case)),
         (Err(e), Some(w)) => Some(format!("candidate {} is inside the language of {:?} (ignore_case={}, reads as {w}) but is rejected with {:?}", cand.esc(), a.parser, a.ignore_case, e.kind())),
         (Err(e), None) => {
-            if matches!(e.kind(), clap::error::ErrorKind::InvalidValue | clap::error::ErrorKind::ValueValidation | clap::error::ErrorKind::InvalidUtf8) {
+            if matches!(e.kind(), clap::error::ErrorKind::InvalidValue | clap::error::ErrorKind::ValueValidation) {
+                // "... rejected with a value error naming the argument"
+                let text = e.to_string();
+                if text.contains("--probe") {
+                    None
+                } else {
+                    Some(format!("candidate {} for {:?}: the value error does not name the argument: {text:?}", cand.esc(), a.parser))
+                }
+            } else if e.kind() == clap::error::ErrorKind::InvalidUtf8 {
                 None
             } else {
                 Some(format!("candidate {} for {:?}: rejected with {:?}, which is not a value error", cand.esc(), a.parser, e.kind()))
@@ -564,7 +601,8 @@ fn exec_access(sc: &C04Sc, log: &mut Log, out: &mut Outcome) {
                     let a = &sc.spec.args[k as usize % sc.spec.args.len()];
                     out.comparisons += 1;
                     out.count("op.language_probe");
-                    if let Some(d) = lang_probe(a, cand) {
+                    out.count_dyn(format!("op.language_probe_via_{}", ["equals", "separate_token", "environment", "cloned_command"][op.via as usize % 4]));
+                    if let Some(d) = lang_probe(a, cand, op.via % 4) {
                         out.violate("language-differs", format!("{:?}", a.parser).split(|c: char| !c.is_alphanumeric()).next().unwrap_or("").to_string(), format!("op {i}: {d}"));
                         return;
                     }
